@@ -141,9 +141,11 @@ impl StateMachine {
         // Note that the order of NewView and proposal messages doesn't matter, because
         // proposal is a superset of NewView message.
         let justification = self.get_justification();
+        // The proposer task (the only receiver) returns as soon as its context is canceled, which
+        // may happen while the replica is still finishing a handler (e.g. at the end of an epoch),
+        // so the channel may be closed already: `send_replace()` never fails.
         self.proposer_sender
-            .send(Some(justification.clone()))
-            .expect("justification_watch.send() failed");
+            .send_replace(Some(justification.clone()));
 
         // Clear the block proposal cache.
         if let Some(qc) = self.high_commit_qc.as_ref() {
